@@ -211,7 +211,7 @@ def run_shard(ctx):
             ctx.fail(b, w, case)
 
     n = P["n_cases"]
-    forces = ["scan", "vmap", "indicator", "cond", "vdist", "call", None, "detcall"]
+    forces = ["scan", "vmap", "indicator", "cond", "vdist", "call", "condm", "detcall"]
     drive(ctx, cases(False, forces[ctx.shard % len(forces)]), n - n // 3, one, "cont")
     drive(ctx, cases(True, forces[(ctx.shard + 1) % len(forces)]), n // 3, one, "disc")
     nk = modelir.NEST_KINDS  # combinators applied directly to combinators
